@@ -121,6 +121,31 @@ func rejections() []Rejection {
 			_, err := w.DB.InsertOrUpdateMany(a, b)
 			return err
 		}, sod.IsUnique},
+		{"many-update-then-fresh-same-key", func(w *World) bool { return anyStored(w) && len(freeKeys(w)) >= 1 }, func(w *World) error {
+			// a stored object moves to a free key which a later member of the same batch takes too
+			fk := freeKeys(w)
+			u, m := firstStored(w)
+			upd := cloneRec(m)
+			upd.Initialize(u)
+			other := NewRec(2, fk[0])
+			upd.K = other.K
+			upd.S = "moved"
+			_, err := w.DB.InsertOrUpdateMany(upd, other)
+			return err
+		}, sod.IsUnique},
+		{"many-two-updates-same-key", func(w *World) bool { return len(w.M.Objs) >= 2 && len(freeKeys(w)) >= 1 }, func(w *World) error {
+			// two stored objects move to the same free key in one batch
+			fk := freeKeys(w)
+			u1, m1 := firstStored(w)
+			u2, m2 := secondStored(w)
+			a, b := cloneRec(m1), cloneRec(m2)
+			a.Initialize(u1)
+			b.Initialize(u2)
+			a.K, b.K = tabK[fk[0]], tabK[fk[0]]
+			a.S, b.S = "moved", "moved"
+			_, err := w.DB.InsertOrUpdateMany(a, b)
+			return err
+		}, sod.IsUnique},
 		{"many-update-conflict", func(w *World) bool { return len(w.M.Objs) >= 2 }, func(w *World) error {
 			u, m := firstStored(w)
 			_, m2 := secondStored(w)
